@@ -1,7 +1,7 @@
 #!/bin/sh
 # seedcheck.sh <PROP> <src-dir-of-one-seeded-defect> <name>
 # Confirms a seeded defect in a scratch worktree (applies, builds, touched-package tests pass, demo fails with / passes without),
-# then runs ./check <PROP> against /repo with the patch applied and reverts. Writes /verif/seeded/<name>/{patch.diff,demo*,notes.md,meta.json}.
+# then runs ./check <PROP> against that worktree with the patch applied (VERIF_REPO). Writes /verif/seeded/<name>/{patch.diff,demo*,notes.md,meta.json}.
 set -u
 P=$1; SRC=$2; NAME=$3; BUDGET=${4:-40}
 export GOFLAGS=-mod=mod GOPROXY=off
@@ -20,18 +20,19 @@ pkgs=$(git -C "$WT" diff --name-only | grep '\.go$' | xargs -n1 dirname | sort -
 if [ $builds = yes ]; then (cd "$WT" && timeout 1500 go test -vet=off -count=1 -short $pkgs >/tmp/seed-$NAME-tests.log 2>&1) && tests=pass || tests=fail; fi
 if [ -x "$SRC/run_demo.sh" ]; then (cd "$SRC" && timeout 900 ./run_demo.sh "$WT" >/tmp/seed-$NAME-with.log 2>&1) && demo_with=pass || demo_with=fail; fi
 git -C "$WT" checkout -- . ; git -C "$WT" clean -fdq
-git -C /repo worktree remove --force "$WT"
-# run the check against /repo with the patch applied
+# run the registered check against a checkout with the patch applied (VERIF_REPO points the driver at the
+# scratch worktree; equivalent to applying the patch to /repo and undoing it, without disturbing /repo)
 caught=no; sigs=""
 if [ $builds = yes ]; then
-  git -C /repo apply "$SRC/patch.diff" && {
-    (cd /verif && ./check $P --tier quick --budget $BUDGET > /tmp/seed-$NAME-check.log 2>&1); rc=$?
-    git -C /repo checkout -- . ; git -C /repo clean -fdq -- internal cmd >/dev/null 2>&1
+  git -C "$WT" apply "$SRC/patch.diff" && {
+    (cd /verif && VERIF_REPO="$WT" ./check $P --tier quick --budget $BUDGET > /tmp/seed-$NAME-check.log 2>&1); rc=$?
     [ $rc = 1 ] && caught=yes
     [ $rc = 2 ] && caught=harness-trouble
     sigs=$(grep "signature:" /tmp/seed-$NAME-check.log | sed 's/.*signature: //' | sort -u | tr '\n' ' ')
   }
 fi
+git -C "$WT" checkout -- . ; git -C "$WT" clean -fdq
+git -C /repo worktree remove --force "$WT"
 mkdir -p "$DST"; cp "$SRC"/patch.diff "$SRC"/notes.md "$DST"/ 2>/dev/null; cp "$SRC"/demo* "$SRC"/run_demo.sh "$DST"/ 2>/dev/null; cp -r "$SRC"/demo "$DST"/ 2>/dev/null
 python3 - "$P" "$NAME" "$applies" "$builds" "$tests" "$demo_with" "$demo_without" "$caught" "$sigs" "$BUDGET" <<'PY'
 import json,sys,subprocess
